@@ -540,8 +540,7 @@ example : eval toyOps 10 0 (.list [it (.assign "a" (.num F64.one)), it (.ident "
 example : (eval toyOps 3 0 (.assign "not" (.num F64.one)) root0).1 = .ok (.num F64.one) := by
   simp +decide [eval, root0, envGet, lookupAL, envInsert, insertAL, setNameIfLambda, createdSince, envContains]
 
-/-- `f = x => x; g = f`: the function keeps the name `f` (before the fix of the naming rule the
-    second statement could not rename it either, but `g = f` with `f` nameless could name it) -/
+/-- `f = x => x; g = f`: one cell, bound to both names, called `f` -/
 example : (runStmts toyOps 10 root0 [.assign "f" (.lambda [.req "x"] (.ident "x")), .assign "g" (.ident "f")]).2
     = { env := [[("f", .lambda 1 [.req "x"] (.ident "x") []), ("g", .lambda 1 [.req "x"] (.ident "x") [])]],
         nextId := 2, names := [(1, "f")] } := by
